@@ -394,8 +394,18 @@ def r6(ctx):
         for g in guards_of(hir, c) or []:
             if g[0] == "if" and g[2] is True:
                 p = peel(g[1], methods=False)
-                if p["k"] == "Path" and p.get("res") == flag:
-                    gated = True
+                locs_ = Locals(hir)
+                for _ in range(6):      # the flag may reach the test through a helper's result / a renamed local
+                    if p["k"] == "Path" and p.get("res") == flag:
+                        gated = True
+                        break
+                    if p["k"] == "Path" and p.get("rk") == "Local" and p["res"] in locs_.defs:
+                        p = locs_.defs[p["res"]]
+                        while p["k"] == "Block" and "expr" in p:
+                            p = p["expr"]
+                        p = peel(p, methods=False)
+                        continue
+                    break
     ctx.obligation(gated)
     if not gated:
         ctx.violation("parse_cond/not-applied", ctx.where(PARSE_COND), "negate_expr_op is not applied under `if <parity flag>`")
